@@ -105,7 +105,10 @@ Definition perturb_poisson (d : list (Q * Q)) (lam : Q) : bool :=
 (* geometric: ll = W ln p + M ln(1-p); ln((1-p')/(1-p)) <= (1-p')/(1-p) - 1 *)
 Definition perturb_geometric (d : list (Q * Q)) (p : Q) : bool :=
   let W := qW d in let M := qM d in
-  if Qle_bool 1 p then Qle_bool (W * lnm_hi) 0 && Qeq_bool M 0   (* p = 1 is only optimal without mass above 0 *)
+  if Qle_bool 1 p then Qle_bool (W * lnm_hi) 0 &&
+       (Qeq_bool M 0 || Qle_bool (M * 9007199254740992) W)
+       (* p = 1 is only optimal without mass above 0 - or, for a binary64 estimate, when the exact optimum W/(W+M)
+          is within 2^-53 of 1 and therefore not representable below 1 (e.g. a log-weight of -700 next to 1.5) *)
   else
     (if Qlt_le_dec (p * (1 + delta)) 1 then Qle_bool (W * lnp_hi - M * (delta * p / (1 - p))) 0 else true) &&
     Qle_bool (W * lnm_hi + M * (delta * p / (1 - p))) 0.
